@@ -28,6 +28,7 @@ func docCase(c Case, e *env) (*docGen, string, string) {
 	switch e.prop {
 	case "C05":
 		g.noise = true
+		g.markupText = true
 	case "C04X":
 	case "C02", "C03", "C04", "C07":
 		g.inlineJunk = e.prop == "C04" || e.prop == "C02"
